@@ -35,6 +35,11 @@ KNOWN_FILE = os.path.join(boot.VERIF, "known_findings.json")
 
 LEVELS = ("exploration", "fault_enumeration")
 
+# violations of one signature kept with their plans, per block and in total
+# (the rest are counted): known findings can match many thousands of runs
+KEEP_PER_SIG = 2
+KEEP_PER_SIG_TOTAL = 20
+
 
 def load_prop(pid):
     return importlib.import_module("zcsim.props." + pid.lower())
@@ -74,7 +79,7 @@ def run_block(args):
     out = {"runs": 0, "evaluations": 0, "digests": set(), "fired": {},
            "probes": {}, "violations": [], "harness_errors": [],
            "samples": [], "sim_time": 0.0, "waste": 0, "trivial": 0,
-           "skipped": 0}
+           "skipped": 0, "viol_counts": {}}
     for index in range(start, stop):
         if time.time() > wall_deadline:
             out["skipped"] += stop - index
@@ -106,6 +111,10 @@ def run_block(args):
         out["sim_time"] += res.get("sim_time", 0.0)
         out["waste"] += res.get("waste", 0)
         for v in res["violations"]:
+            n = out["viol_counts"].get(v["sig"], 0)
+            out["viol_counts"][v["sig"]] = n + 1
+            if n >= KEEP_PER_SIG:
+                continue          # counted; the plan is not kept
             v = dict(v)
             v["index"] = index
             v["run_seed"] = rs
@@ -284,8 +293,9 @@ def run_check(pid, tier, seed, workers=None, runs=None, wall=None,
     agg = {"runs": 0, "evaluations": 0, "digests": set(), "fired": {},
            "probes": {}, "violations": [], "harness_errors": [],
            "samples": [], "sim_time": 0.0, "waste": 0, "trivial": 0,
-           "skipped": 0}
+           "skipped": 0, "viol_counts": {}}
     known = load_known()
+    kept = {}
 
     def absorb(r):
         agg["runs"] += r["runs"]
@@ -293,7 +303,12 @@ def run_check(pid, tier, seed, workers=None, runs=None, wall=None,
         agg["digests"].update(r["digests"])
         _merge_counts(agg["fired"], r["fired"])
         _merge_counts(agg["probes"], r["probes"])
-        agg["violations"].extend(r["violations"])
+        _merge_counts(agg["viol_counts"], r.get("viol_counts", {}))
+        for v in r["violations"]:
+            n = kept.get(v["sig"], 0)
+            if n < KEEP_PER_SIG_TOTAL:
+                kept[v["sig"]] = n + 1
+                agg["violations"].append(v)
         agg["harness_errors"].extend(r["harness_errors"])
         agg["samples"].extend(r["samples"])
         agg["sim_time"] += r["sim_time"]
@@ -334,12 +349,17 @@ def run_check(pid, tier, seed, workers=None, runs=None, wall=None,
 
     # -- verdict ---------------------------------------------------------------
     unknown, matched = [], {}
+    seen_sig = set()
     for v in sorted(agg["violations"], key=lambda v: (v["index"], v["sig"])):
         kf = match_known(pid, v, known)
         if kf is None:
             unknown.append(v)
         else:
-            matched.setdefault(kf["id"], [kf, 0, v])[1] += 1
+            ent = matched.setdefault(kf["id"], [kf, 0, v])
+            if v["sig"] not in seen_sig:
+                # every occurrence of this signature, kept or only counted
+                seen_sig.add(v["sig"])
+                ent[1] += agg["viol_counts"].get(v["sig"], 1)
 
     wall = time.time() - t0
     status = 0
